@@ -359,5 +359,6 @@ func runC13(r *run) {
 	}
 	c13ShortCounts(r)
 	c13KeptList(r)
+	failingDestinationLeaves(r.violate)
 	slog.VerifResetGlobals()
 }
